@@ -18,6 +18,10 @@ Oracle: per-task model {user pause count, waiting on a yielded Deferred, done(ki
     every pause with a resume, every task finishes within sum(remaining)+N^2+10 ticks;
   * Cooperator.stop() completes every task in the running set with SchedulerStopped at once; paused
     / waiting tasks get it when they would become runnable again (unless start() came first).
+Yielded Deferreds come in four shapes: fresh and unfired; already fired but chained to an inner
+unfired Deferred; already fired (ok / failed) and pause()d; already fired with nothing pending.  The
+task counts as waiting until the yielded Deferred's callback chain delivers (inner fired / unpause),
+an already-delivered success is no wait at all, an already-delivered failure is an immediate TaskFailed.
 False-alarm guards: the order in which runnable tasks are advanced is NOT checked (only the bound);
 resume() is only issued to match an earlier user pause() (an unmatched resume() on a task that waits
 on a Deferred is a caller error the implementation cannot tell from its own pause; don't-care),
@@ -52,7 +56,8 @@ SHARDS = {"quick": 4, "thorough": 16}
 FLOORS = {"next_checks": 20000, "completion_checks": 5000, "done_exhausted": 1000, "done_failed": 300, "done_stopped": 300,
           "done_sched_stopped": 300, "finished_op_refused": 300, "not_paused_raised": 100, "deferred_waits": 1000,
           "pause_while_waiting": 100, "ops_inside_next": 1000, "ops_inside_callback": 200, "coop_stops_with_2plus_running": 100,
-          "whendone_after_completion": 200, "starvation_checks": 20000, "drains": 1000}
+          "whendone_after_completion": 200, "starvation_checks": 20000, "drains": 1000,
+          "waits_on_defer": 1000, "waits_on_dchain": 300, "waits_on_dpaused": 200, "already_fired_deferreds_yielded": 200}
 READY = True
 
 
@@ -138,8 +143,19 @@ def gen_case(rng, self_ops):
         steps = []
         for _ in range(rng.randrange(0, 7)):
             r = rng.random()
-            k = "raise" if r < fail_p else ("defer" if r < fail_p + 0.3 else "val")
-            steps.append([k, small_op() if rng.random() < inline_p else None])
+            if r < fail_p:
+                k = "raise"
+            elif r < fail_p + 0.2:
+                k = "defer"    # a fresh, unfired Deferred
+            elif r < fail_p + 0.27:
+                k = "dchain"   # already fired, but its callback chain waits on an inner unfired Deferred
+            elif r < fail_p + 0.32:
+                k = "dpaused"  # already fired (ok or failed) and pause()d: delivers at unpause()
+            elif r < fail_p + 0.37:
+                k = "dnow"     # already fired, nothing pending: no wait (ok) / immediate TaskFailed (failed)
+            else:
+                k = "val"
+            steps.append([k, small_op() if rng.random() < inline_p else None, rng.random() >= fail_p])
             if k == "raise":
                 break
         end_inline = small_op() if rng.random() < inline_p / 2 else None
@@ -180,7 +196,8 @@ class Monitor:
 
         self.ctx, self.case, self.task = ctx, case, task
         self.tasks = []
-        self.outstanding = []  # [(TaskM, Deferred)]
+        self.outstanding = []  # [(TaskM, Deferred to fire | None = unpause, yielded Deferred, preset outcome | None)]
+        self.yielded = []
         self.pending_tick = None
         self.coop_stopped = False
         self.coop_started = case["started"]
@@ -289,7 +306,8 @@ class Monitor:
         elif tm.pos >= len(steps):
             kind, inline = "val", None
         else:
-            kind, inline = steps[tm.pos]
+            kind, inline = steps[tm.pos][0], steps[tm.pos][1]
+            preset_ok = steps[tm.pos][2] if len(steps[tm.pos]) > 2 else True
         tm.pos += 1
         if inline is not None:
             self.stat("ops_inside_next")
@@ -306,15 +324,43 @@ class Monitor:
             exc = Boom(tm.tid)
             self.set_done(tm, "failed", exc)
             raise exc
-        if kind == "defer":
-            from twisted.internet.defer import Deferred
+        if kind in ("defer", "dchain", "dpaused"):
+            from twisted.internet import defer
 
-            d = Deferred()
+            # `token` is what the iterator yields; the task waits until its callback chain delivers
+            if kind == "defer":
+                token = fire = defer.Deferred()
+                preset = None
+            elif kind == "dchain":
+                fire = defer.Deferred()
+                token = defer.succeed(None)
+                token.addCallback(lambda _, inner=fire: inner)
+                preset = None
+            else:
+                exc = None if preset_ok else Boom("paused deferred of task %d" % tm.tid)
+                token = defer.succeed(None) if preset_ok else defer.fail(exc)
+                token.pause()
+                fire = None  # delivered by token.unpause()
+                preset = (preset_ok, exc)
             if tm.done is None:
-                tm.waiting = d
+                tm.waiting = token
                 self.stat("deferred_waits")
-            self.outstanding.append((tm, d))
-            return d
+                self.stat("waits_on_" + kind)
+            self.outstanding.append((tm, fire, token, preset))
+            self.yielded.append(token)
+            return token
+        if kind == "dnow":
+            from twisted.internet import defer
+
+            self.stat("already_fired_deferreds_yielded")
+            if preset_ok:
+                token = defer.succeed(None)
+            else:
+                exc = Boom("fired deferred of task %d" % tm.tid)
+                self.set_done(tm, "failed", exc)
+                token = defer.fail(exc)
+            self.yielded.append(token)
+            return token
         return tm.pos
 
     def on_completion(self, res, tm, rec, action):
@@ -444,8 +490,7 @@ class Monitor:
                 self.bad = True
             elif r is not None and type(e).__name__ in ("ValueError", "TaskStopped", "SchedulerStopped"):
                 self.fail("completed-inside-own-next", "task %d was completed (%s) from inside its own next(), which then %s; "
-                          "Cooperator._tick raised %s: %s (and did not reschedule)" % (r[0], r[1], {"end": "ended", "raise": "raised",
-                          "defer": "yielded a Deferred"}[r[2]], type(e).__name__, e), exception=type(e).__name__, task=r[0])
+                          "Cooperator._tick raised %s: %s (and did not reschedule)" % (r[0], r[1], {"end": "ended", "raise": "raised"}.get(r[2], "yielded a Deferred"), type(e).__name__, e), exception=type(e).__name__, task=r[0])
             else:
                 self.fail("tick-raised", "Cooperator._tick raised %s: %s" % (type(e).__name__, e), exception=type(e).__name__)
         finally:
@@ -516,21 +561,28 @@ class Monitor:
     def op_fire(self, k, ok):
         if not self.outstanding:
             return
-        tm, d = self.outstanding.pop(k % len(self.outstanding))
-        self.events.append(("fire", tm.tid, ok))
+        tm, fire, d, preset = self.outstanding.pop(k % len(self.outstanding))
+        exc = None
+        if preset is not None:
+            ok, exc = preset
+        elif not ok:
+            exc = Boom("deferred of task %d" % tm.tid)
+        self.events.append(("fire" if fire is not None else "unpause", tm.tid, ok))
         was_waiting = tm.waiting is d
         if was_waiting:
             tm.waiting = None
-        exc = None
         if ok:
             if was_waiting:
                 self.became_runnable(tm)
-        else:
-            exc = Boom("deferred of task %d" % tm.tid)
-            if was_waiting:
-                self.set_done(tm, "failed", exc)
+        elif was_waiting:
+            self.set_done(tm, "failed", exc)
         try:
-            d.callback(None) if ok else d.errback(exc)
+            if fire is None:
+                d.unpause()
+            elif ok:
+                fire.callback(None)
+            else:
+                fire.errback(exc)
         except Exception as e:  # noqa: BLE001
             return self.fail("unexpected-exception", "firing a yielded Deferred raised %s: %s" % (type(e).__name__, e))
         from twisted.python.failure import Failure
@@ -603,6 +655,8 @@ class Monitor:
             self.do_op(op)
         if not self.bad:
             self.drain()
+        for d in self.yielded:  # Deferreds the Cooperator never owned (task finished during that next()) may hold a failure
+            d.addErrback(lambda _: None)
         return self
 
     def drain(self):
